@@ -31,7 +31,8 @@ BAR_TYPES = ['', '', '', '', '||', '|!', '|!:', '|:', '!|:', ':|!', ':|!|:', ':|
 
 WORDS = ['la', 'Ky-', '-ri-', 'e', '_', 'A-', 'men', 'do', 're', 'mi', 'Gott', 'lieb', 'f', 'p', 'mf', 'ff', 'cresc',
          '<', '>', '(', ')', '[', ']', 'C', 'Am', 'G7', 'I', 'V7', 'iv', 'viio', '1', '2', '3', '4 5', 'n', 'x', '1-2',
-         'sol', 'al-', 'le-', 'lu-', 'ia', 'pp', 'sfz', 'dim', 'IV', 'ii6', 'T', 'ped', 'a', 'c', 'cc', '4c', 'r']
+         'sol', 'al-', 'le-', 'lu-', 'ia', 'pp', 'sfz', 'dim', 'IV', 'ii6', 'T', 'ped', 'a', 'c', 'cc', '4c', 'r',
+         'rit.', 'rit', 'rall.', 'rinf.', 'ring', 'river', 'res-', 'ri-', '-re', 'rf', 'poco', 'più', 'ten.', 'stacc.', 'xywh']
 HOSTILE_WORDS = ['"quoted"', "it's", 'a,b', 'two words', 'naïve', 'señor', 'größe', '日本', 'a"b', '""', '"', 'c\\d',
                  "''", 'x;y', ' lead', 'trail ', 'q"', '"open', 'close"', 'a""b', ',', "'", '\\', 'ñ', 'é', '€uro',
                  'tab?', 'a  b', '"a"b"', 'Ωmega', 'x|y', '4c|', '#', '-', '--', '~', '{x}', '"a b" c']
